@@ -272,6 +272,12 @@ class Engine(ExprMixin, ExprMixin2, StmtMixin, LoopMixin, CallMixin, CompMixin, 
             raise Unsupported(f"{qual} is wrapped by the decorator @{t}: what a call does is the wrapper's behaviour, which is outside the verified subset")
 
     def check_signature(self, c, fn):
+        if getattr(c, "_sig_checked", None) is fn:
+            return
+        self._check_signature(c, fn)
+        c._sig_checked = fn
+
+    def _check_signature(self, c, fn):
         names = [a.arg for a in fn.args.posonlyargs + fn.args.args]
         if fn.args.vararg:
             names.append("*" + fn.args.vararg.arg)
@@ -279,6 +285,13 @@ class Engine(ExprMixin, ExprMixin2, StmtMixin, LoopMixin, CallMixin, CompMixin, 
         if fn.args.kwarg:
             names.append("**" + fn.args.kwarg.arg)
         declared = [p[0] for p in c.params if p[0] != "__closure__"]
+        decos = [ast.unparse(d) for d in getattr(fn, "decorator_list", [])]
+        if declared != names and names and names[0] == "cls" and "classmethod" in decos and declared == names[1:]:
+            # a static method turned into a class method: the class is passed first (callers reach it the same way)
+            owner = ".".join(c.qual.split("#")[0].split("@")[0].split(".")[:-1])
+            closure = [p for p in c.params if p[0] == "__closure__"]
+            c.params = closure + [("cls", "cls:" + owner, None)] + [p for p in c.params if p[0] != "__closure__"]
+            return
         if declared != names:
             # parameters *added with a default* since the sidecar was written: the contract is kept (its clauses do not mention them)
             # and they are bound to their defaults / to what callers pass; anything else (renamed, removed, reordered) is stale
